@@ -340,26 +340,23 @@ class Rd(ReadBase):
             yield Case(f'rd:{name}:{i}', ['load ' + mp, f'run blk={blk} src={src} cons={cons} trunc=- fault=-'], {'file': mp})
         # header sweep: one small representative per format family, single damaged bytes in the fixed
         # header (length, count and size fields live there) combined with a cut just behind it
-        fams = {}
-        for n_, p_ in sorted(pool):
-            m = re.match(r'test_(?:read_format|compat|read_filter|fuzz)?_?([a-z0-9]+)', n_)
-            ext = n_.rsplit('.', 1)[-1]
-            key = (m.group(1) if m else '') + '.' + ext
-            if key not in fams or os.path.getsize(p_) < os.path.getsize(fams[key]):
-                fams[key] = p_
-        reps = sorted(fams.values())
-        rng.shuffle(reps)
-        for p_ in reps[:(24 if tier == 'quick' else len(reps))]:
+        small = sorted(p_ for n_, p_ in pool if os.path.getsize(p_) <= 6000)
+        rng.shuffle(small)
+        for p_ in small[:(30 if tier == 'quick' else len(small))]:
             size = os.path.getsize(p_)
             ops = ['load ' + p_]
-            for _ in range(25 if tier == 'quick' else 400):
-                off = rng.randrange(0, min(size, 80))
-                val = rng.choice([255, 255, 200, 127, 128, 0, 1, 64])
+            # every byte of the fixed header set to 255, small blocks so that the library's own
+            # (exact-size) copy buffer is what an over-long length field runs out of
+            for off in range(0, min(size, 40 if tier == 'quick' else 96)):
+                ops.append(f'run blk=7 src=cb cons=A trunc=- fault=- poke={off}:255')
+            for _ in range(12 if tier == 'quick' else 300):
+                off = rng.randrange(0, min(size, 120))
+                val = rng.choice([255, 200, 127, 128, 0, 1, 64])
                 pk = f'{off}:{val}'
                 if rng.random() < 0.3:
                     pk += f',{min(size - 1, off + 1)}:{rng.choice([255, 0, 127])}'
                 tr = rng.choice(['-', '-', str(min(size, off + rng.randrange(1, 40))), str(min(size, rng.choice([21, 27, 28, 32, 60, 64, 100, 512])))])
-                ops.append(f'run blk={rng.choice(["w", "w", "7", "512"])} src={rng.choice(["cb", "cbk"])} cons={rng.choice(["A", "B", "S"])} trunc={tr} fault=- poke={pk}')
+                ops.append(f'run blk={rng.choice(["w", "7", "512"])} src={rng.choice(["cb", "cbk"])} cons={rng.choice(["A", "B", "S"])} trunc={tr} fault=- poke={pk}')
             yield Case(f'rd:sweep:{os.path.basename(p_)}', ops)
         tars = [p for n_, p in pool if n_.endswith('.tar') and os.path.getsize(p) < 30000]
         for i in range(25 if tier == 'quick' else 300):
